@@ -4,6 +4,7 @@ import Driver.Tx
 import Driver.Util
 import Driver.Gateway
 import Driver.Cli
+import Driver.Client
 
 open Driver
 
@@ -75,6 +76,10 @@ def main (args : List String) : IO UInt32 := do
   | ["gateway"] =>
     let (n, k) ← caseLoop stdin stdout gatewayCase none #[] 0 0
     stdout.putStrLn s!"SUMMARY gateway cases={n} reports={k}"
+    return 0
+  | ["client"] =>
+    let (n, k) ← caseLoop stdin stdout clientCase none #[] 0 0
+    stdout.putStrLn s!"SUMMARY client cases={n} reports={k}"
     return 0
   | ["cli"] =>
     let (n, k) ← stLoop stdin stdout cliLine ({} : CliState) 0 0
